@@ -133,7 +133,7 @@ Definition outcome_eqb (a b : outcome) : bool :=
   | OAxis x, OAxis x' => uaxis_eqb x x'
   | OCol c, OCol c' => zlist_eqb c c'
   | OCols l, OCols l' => cols_eqb l l'
-  | ODuring d, ODuring d' => dsel_eqb (d_sel d) (d_sel d') && (d_t0 d =? d_t0 d') && unit_eqb (d_unit d) (d_unit d')
+  | ODuring d, ODuring d' => dsel_eqb (d_sel d) (d_sel d') && (d_t0 d =? d_t0 d') && (d_dt d =? d_dt d') && unit_eqb (d_unit d) (d_unit d')
   | OEvents p u d, OEvents p' u' d' => zlist_eqb p p' && unit_eqb u u' && cols_eqb d d'
   | OEpochs e, OEpochs e' => epochs_eqb e e'
   | OErr e, OErr e' => xerr_eqb e e'
